@@ -13,7 +13,7 @@ PROPS = {
     'C02': {'units': ['expr', 'lower', 'opt', 'fuse', 'run19'], 'kani': K_ANALYSIS + [{'crate': 'p3-circuit', 'harness': 'c02_allocator_monotone'}], 'exclude': r'H_dup_out_unmentioned'},
     'C03': {'units': ['opt', 'fuse'], 'kani': K_ANALYSIS},
     'C19': {'units': ['run19'], 'kani': K_CONTEXT},
-    'C20': {'units': ['gad', 'fri', 'periodic'], 'kani': [], 'only': {'fri': r'evaluate_polynomial|circuit_exp_by_constant|lemma_'}},
+    'C20': {'units': ['gad', 'quot', 'fri', 'periodic'], 'kani': [], 'only': {'fri': r'evaluate_polynomial|circuit_exp_by_constant|lemma_'}},
     'C07': {'units': ['fri', 'shape', 'fold', 'openin'], 'kani': [], 'only': {'shape': r'verify_fri_circuit'}, 'exclude': r'possible (bit shift|arithmetic)'},
     'C05': {'units': ['chal'], 'kani': [], 'exclude': r'canonical_width'},
     'C06': {'units': ['bind'], 'kani': []},
@@ -81,12 +81,14 @@ META['C20'] = {
     'text': 'Deductive proof, for every field satisfying the ring/inverse laws, every domain size/shift, every exponent and every input value, that the gadget '
             'functions return a target whose value is the native formula: exp_power_of_2 = x^(2^k) (loop invariant), mul_many = product, inner_product = dot product, '
             'select, vanishing_poly_at_point_circuit = the value of the native helper vanishing_poly_at_point_native (both under contract), '
-            'selectors_at_point_circuit (both PCS impls) = the four native Lagrange selector formulas of p3-commit.',
+            'selectors_at_point_circuit (both PCS impls) = the four native Lagrange selector formulas of p3-commit. Unit quot: compute_quotient_chunk_products returns, per chunk, '
+            '(prod_j Z_j(zeta) / Z_i(zeta)) / prod_{j != i} Z_j(g_i) (the natively pre-computed denominators included, for every number of chunks), compute_quotient_evaluation the sum over chunks of '
+            'coefficient times basis recomposition, and recompose_quotient_from_chunks_circuit their composition — under the stated non-vanishing of the divisors.',
     'note': 'Unit periodic: evaluate_one / evaluate_periodic_columns_circuit return, for every column, the Horner value of the lifted coset-inverse-DFT coefficients at point^(2^(log_n - log_period)), i.e. the native '
             'evaluate_periodic_column_at (native constants npow2 / idft / lift uninterpreted), and reject malformed columns. '
             'Assumed (proved elsewhere or trusted): builder arithmetic contracts (value of add/sub/mul/div/mul_add/define_const under one fixed input assignment); '
             'native formulas transcribed from p3-commit 0.6.3; R11 type erasure of SC/PCS generics to a Field/PcsStub/CosetStub prelude (logged per function). '
-            'Not yet under contract: compute_quotient_chunk_products, compute_quotient_evaluation, periodic evaluate_one, evaluate_polynomial, circuit_exp_by_constant.',
+            'Iterator chains (enumerate/filter/fold, map/collect_vec) are desugared to loops by logged R6 rules with the closure bodies verbatim.',
 }
 
 META['C05'] = {
